@@ -14,6 +14,7 @@
 package blobclient
 
 import (
+	"bytes"
 	"context"
 	"errors"
 	"fmt"
@@ -259,8 +260,19 @@ func (c *clusterClient) DownloadBlob(ctx context.Context, namespace string, d co
 
 	log.WithTraceContext(ctx).With("namespace", namespace, "digest", d.Hex()).Debug("Starting blob download from origin cluster")
 
+	// A failed attempt may already have written part of the blob to dst. Before
+	// the next attempt (same or next origin) dst must be rewound, else it would
+	// end up with the partial data followed by the blob. If dst cannot be
+	// rewound, fail instead of delivering corrupt content.
+	cw := &countingWriter{w: dst}
 	err := Poll(c.resolver, c.defaultPollBackOff(), d, func(client Client) error {
-		return client.DownloadBlob(ctx, namespace, d, dst)
+		if cw.n > 0 {
+			if err := rewindWriter(dst, cw.n); err != nil {
+				return fmt.Errorf("discard %d bytes of a failed download: %s", cw.n, err)
+			}
+			cw.n = 0
+		}
+		return client.DownloadBlob(ctx, namespace, d, cw)
 	})
 	if httputil.IsNotFound(err) {
 		span.SetStatus(codes.Error, "blob not found")
@@ -350,6 +362,36 @@ func (c *clusterClient) ReplicateToRemote(namespace string, d core.Digest, remot
 	return Poll(c.resolver, c.defaultPollBackOff(), d, func(client Client) error {
 		return client.ReplicateToRemote(namespace, d, remoteDNS)
 	})
+}
+
+// countingWriter counts the bytes written to w.
+type countingWriter struct {
+	w io.Writer
+	n int64
+}
+
+func (c *countingWriter) Write(p []byte) (int, error) {
+	n, err := c.w.Write(p)
+	c.n += int64(n)
+	return n, err
+}
+
+// rewindWriter discards the last n bytes written to w, if w supports it.
+func rewindWriter(w io.Writer, n int64) error {
+	if w == io.Discard {
+		return nil
+	}
+	switch w := w.(type) {
+	case *bytes.Buffer:
+		w.Truncate(w.Len() - int(n))
+		return nil
+	case io.Seeker:
+		// The retried download rewrites the whole blob, which is longer than
+		// any partial copy of it, so no truncation is needed.
+		_, err := w.Seek(-n, io.SeekCurrent)
+		return err
+	}
+	return errors.New("destination cannot be rewound")
 }
 
 func shuffle(cs []Client) {
